@@ -66,12 +66,16 @@ pub fn make_unmake_exact<S: Src, const SIDE: u8, const KG: u8>(s: &mut S) {
     vassert!("undo restores the combined set", verif::board_all(&b) == verif::board_all(&b0));
     let pc2 = s.below(13);
     vassert!("undo restores every per-piece set", b.piece(Cell::from_index(pc2 as usize)) == b0.piece(Cell::from_index(pc2 as usize)));
-    vcover!("a capture", m.kind != K_NULL && p.cells[m.dst as usize] != 0);
-    vcover!("an illegal semilegal move", m.kind != K_NULL && !legal_ref(&p, m));
-    vcover!("clock at the largest value", p.mc == u16::MAX && m.kind != K_NULL && want.mc == u16::MAX);
-    vcover!("move number at the largest value, Black moves", p.mn == u16::MAX && p.side == 1);
-    vcover!("clock 99 -> 100", p.mc == 99 && q.mc == 100);
-    vcover!("clock 149 -> 150", p.mc == 149 && q.mc == 150);
+    // witnesses, phrased so that each is satisfiable in every (side, group) instantiation
+    let pawnish = KG == KG_PAWN || KG == KG_PSPECIAL || KG == KG_EP;
+    let no_capture_group = KG == KG_CASTLING || KG == KG_NULL || KG == KG_EP;
+    vcover!("a capture (groups that can capture)", no_capture_group || (m.kind != K_NULL && p.cells[m.dst as usize] != 0));
+    vcover!("an illegal semilegal move", KG == KG_NULL || (m.kind != K_NULL && !legal_ref(&p, m)));
+    vcover!("clock stays at the largest value (non-pawn groups)", pawnish || KG == KG_NULL || (p.mc == u16::MAX && want.mc == u16::MAX));
+    vcover!("move number at the largest value (Black moves)", SIDE == WHITE || (p.mn == u16::MAX && p.side == 1));
+    vcover!("clock 99 -> 100 (non-pawn groups)", pawnish || (p.mc == 99 && q.mc == 100));
+    vcover!("clock 149 -> 150 (non-pawn groups)", pawnish || (p.mc == 149 && q.mc == 150));
+    vcover!("clock reset (pawn groups)", !pawnish || (p.mc > 0 && q.mc == 0));
 }
 
 /// depth-2 nesting: make m1, make m2, unmake m2, unmake m1 (bounded confirmation of the induction)
